@@ -12,3 +12,4 @@ import TransportVerif.Props.C09
 import TransportVerif.Props.C13
 import TransportVerif.Props.C15
 import TransportVerif.Props.C08
+import TransportVerif.Props.C14
